@@ -60,6 +60,7 @@ type Obs struct {
 	Instances int               `json:"instances"`
 	Answers   map[string]string `json:"answers"` // probe -> "status body" or "ERR"
 	Events    []string          `json:"events,omitempty"`
+	Files     []string          `json:"files,omitempty"` // after a hammer step: the log files in Dir
 }
 
 // Result is the child's report.
@@ -189,6 +190,29 @@ func answer(probe string) string {
 	return fmt.Sprintf("%d %s %s", resp.StatusCode, resp.Header.Get("X-Marker"), strings.TrimSpace(string(b)))
 }
 
+func hammer(port string, n int) error {
+	conn, err := net.DialTimeout("tcp", "127.0.0.1:"+port, time.Second)
+	if err != nil {
+		return err
+	}
+	defer conn.Close()
+	br := bufio.NewReader(conn)
+	pad := strings.Repeat("h", 4000)
+	for i := 0; i < n; i++ {
+		conn.SetDeadline(time.Now().Add(5 * time.Second))
+		if _, err := fmt.Fprintf(conn, "GET /%s?i=%d HTTP/1.1\r\nHost: localhost\r\n\r\n", pad, i); err != nil {
+			return err
+		}
+		resp, err := http.ReadResponse(br, &http.Request{Method: "GET"})
+		if err != nil {
+			return err
+		}
+		io.Copy(io.Discard, resp.Body)
+		resp.Body.Close()
+	}
+	return nil
+}
+
 func run(scriptPath string) int {
 	b, err := os.ReadFile(scriptPath)
 	if err != nil {
@@ -304,6 +328,9 @@ func run(scriptPath string) int {
 					return
 				}
 				done <- fmt.Errorf("HUNG-RELOAD")
+			case "hammer":
+				// N requests with 4 kB URIs to the site on Port: more than a megabyte of access log
+				done <- hammer(st.Port, st.N)
 			case "writefile":
 				done <- os.WriteFile(filepath.Join(sc.Dir, filepath.Base(st.Path)), []byte(st.Text), 0o644)
 			case "occupy-udp":
@@ -413,6 +440,14 @@ func run(scriptPath string) int {
 		o.Answers = map[string]string{}
 		for _, p := range sc.Probes {
 			o.Answers[p] = answer(p)
+		}
+		if st.Op == "hammer" {
+			ents, _ := os.ReadDir(sc.Dir)
+			for _, e := range ents {
+				if strings.HasPrefix(e.Name(), "access") {
+					o.Files = append(o.Files, e.Name())
+				}
+			}
 		}
 		res.Obs = append(res.Obs, o)
 		flush()
